@@ -461,6 +461,7 @@ def clauseText (r : Option (Req × List MsgIn)) : Clause → String
   | .seqAgree => "C12: client_server_agree over time: the SDK server refuses or alters a call the SDK client generated for valid arguments (tool listed under its current definition since the server's tools last changed)"
   | .unsupportedVersion st code handled => s!"C06+C12: unsupported-version answer: a request whose Mcp-Protocol-Version header and _meta agree on a version this SDK does not implement ({match r with | some (r, _) => bHex r.version | none => "?"}, not older than 2026-07-28) and that meets every other documented precondition was answered {st}/{optInt code}{if handled == 0 then "" else " after a handler ran"} instead of HTTP 400 with JSON-RPC -32022 listing the supported versions (or -32602)"
   | .seqLegacy => "C12: client_server_agree over time: a call on a legacy-protocol session (no Mcp-* mirror applies) is refused or altered"
+  | .seqStaleList => "C12: client_server_agree over time: after the client handled the list_changed notification that followed the server's last change of its tools, ListTools answers from the client's cache with tool definitions the server no longer has (a tools/list result from before the change was kept or stored) — CallTool takes the Mcp-Param mirror from definitions that are not the server's"
   | .reached st => s!"C12: refused request (status {st}) reached a middleware/handler"
   | .dispatchSound p => s!"C12: dispatch_sound: dispatched although: {match r with | some (r, ins) => precondText r ins p | none => reprStr p}"
   | .httpF6 => "C12: F6 empty-string argument: the server refuses (-32020) the empty Mcp-Param header the SDK client sends"
@@ -631,6 +632,7 @@ def showCallOut : CallOut → String
 
 def showSeqObs : SeqObs → String
   | .ok => "ok"
+  | .sent => "sent"
   | .listed hit tools next => s!"hit{if hit then 1 else 0} {showTools tools} {showCursor next}"
   | .looked defs => "L{ " ++ String.join (defs.map (fun d => (match d with | some p => showProps p | none => "-") ++ " ")) ++ "}"
   | .called hdrs out => showHdrs hdrs ++ " " ++ showCallOut out
@@ -646,13 +648,10 @@ partial def parseLooked : List String → List (Option Props) → Option (List (
 /-- The implementation's observation of a `seq` record, typed (`none`: unreadable). -/
 def parseSeqObs (op : SeqOp) (impl : String) : Option SeqObs :=
   match op, words impl with
-  | .list _, h :: "T{" :: r =>
-    (match parseTools r [] with
-     | some (tools, [nx]) =>
-       (match parseCursor nx with
-        | some k => if h == "hit1" then some (.listed true tools k) else if h == "hit0" then some (.listed false tools k) else none
-        | none => none)
-     | _ => none)
+  | .list _, h :: "T{" :: r => listed h r
+  | .listSend _, h :: "T{" :: r => listed h r
+  | .listRecv, h :: "T{" :: r => listed h r
+  | .listSend _, ["sent"] => some .sent
   | .look _, "L{" :: r => (parseLooked r []).map SeqObs.looked
   | .call _ _, toks =>
     (match parseHdrs toks with
@@ -665,6 +664,14 @@ def parseSeqObs (op : SeqOp) (impl : String) : Option SeqObs :=
   | .look _, _ => none
   | _, ["ok"] => some .ok
   | _, _ => none
+where
+  listed (h : String) (r : List String) : Option SeqObs :=
+    match parseTools r [] with
+    | some (tools, [nx]) =>
+      (match parseCursor nx with
+       | some k => if h == "hit1" then some (.listed true tools k) else if h == "hit0" then some (.listed false tools k) else none
+       | none => none)
+    | _ => none
 
 def parseSeqOp : List String → Option SeqOp
   | "set" :: t :: r =>
@@ -676,6 +683,8 @@ def parseSeqOp : List String → Option SeqOp
   | ["adv", _] => some .adv
   | ["notified"] => some .notified
   | ["list", k] => (parseCursor k).map SeqOp.list
+  | ["lsend", k] => (parseCursor k).map SeqOp.listSend
+  | ["lrecv"] => some .listRecv
   | ["look", t] => if t.startsWith "t" then (hexB (tail1 t)).map SeqOp.look else none
   | "call" :: t :: r =>
     (match hexB (tail1 t), parseArgs r with
